@@ -1,8 +1,10 @@
 """C04 — adapter lookup returns the most specific applicable registration (DESIGN.md section 5, C04)."""
 import itertools
 import json
+import os
 
 from .. import common as C
+from ..translate import walkers as WK
 from . import regcommon as RC
 
 ID = "C04"
@@ -11,7 +13,27 @@ PROPERTY_FILE = "Properties/C04.v"
 TIE = "Tie.C04"
 DRIVER = "c04_driver.py"
 THEOREMS = ["C04_lookup_sound", "C04_lookup_complete", "C04_lookup_least", "C04_none_means_any",
-            "C04_extendors_inv", "C04_system_inv"]
+            "C04_extendors_inv", "C04_system_inv",
+            "C04_generated_walkers_eq_trie", "C04_generated_extendors_eq_model", "C04_generated_walkers_eq_model",
+            "C04_generated_lookup_meets_spec"]
+ADAPTER_PY = os.path.join(C.REPO, "src", "zope", "interface", "adapter.py")
+GEN_KERNEL = os.path.join(C.COQ, "Gen", "WalkersKernel.v")
+
+
+def regenerate(run):
+    """Re-translate the walkers / extendors bookkeeping of adapter.py into coq/Gen/WalkersKernel.v (fail closed:
+    a refusal is reported, and the pinned kernel is written so that the rest of the development still builds and
+    the correspondence + Spec oracle can look for a concrete failing input)."""
+    errors = []
+    try:
+        text = WK.translate_file(ADAPTER_PY)
+    except Exception as e:  # noqa
+        text = WK.pinned()
+        errors.append("harness/translate/walkers.py refused %s (%s: %s); coq/Gen/WalkersKernel.v holds the pinned "
+                      "kernel, so the C04_generated_* theorems are NOT about the current source"
+                      % (ADAPTER_PY, type(e).__name__, e))
+    C.write_if_changed(GEN_KERNEL, text)
+    return errors
 SHARD = 10
 RULE = ("worlds of <= 8 specifications (interfaces and class declarations, multiple inheritance), registry DAGs of "
         "1-4 registries of one flavour, <= 25 register/unregister/subscribe/unsubscribe operations of arity 0-3 over "
@@ -25,6 +47,11 @@ RULE = ("worlds of <= 8 specifications (interfaces and class declarations, multi
         "the same lookups again.  Non-trivial = at least two different values and the default were returned; "
         "distinct = (registries, arities registered, number of distinct values returned)")
 TRUSTED_BASE = [
+    "harness/translate/walkers.py (fail-closed Python-ast translator of _lookup/_lookupAll/_subscriptions, "
+    "_uncached_*, add/remove/init_extendors, _convert_None_to_Interface) and the meaning it gives to the accepted "
+    "constructs (Model/WalkersVocab.v: dict.get, truthiness, reversed, for-with-early-return = first_some, "
+    "for-mutating-result = fold_left, recursion on (i, l) = explicit fuel proved sufficient)",
+    "Model/Trie.v + Spec/TrieRel.v + Proofs/TrieRefines.v (C09): nested dictionaries and their refinement of the flat map",
     "Model/Adapter.v abstraction: nested dictionaries represented by the finite map from full keys to values "
     "(validated against the implementation by this correspondence and by bin/check REG)",
     "Ro.fresh_sro / Ro.ro reproduce __sro__ and registry.ro from the observed __bases__ (validated by the "
@@ -296,10 +323,15 @@ def replay_text(case, obs, mode):
     return "\n".join(L)
 
 
-TECHNIQUE = ("Coq proof over a Gallina transcription of _uncached_lookup/_lookup/add_extendor/_provided counting "
+TECHNIQUE = ("Gallina kernel regenerated from adapter.py on every run (walkers + extendors bookkeeping) proved equal to "
+             "the nested-dictionary walkers and, through C09's refinement, to the flat model; Coq proof over a Gallina transcription of _uncached_lookup/_lookup/add_extendor/_provided counting "
              "(induction on the required list and on histories); vm_compute correspondence with both implementations "
              "and a brute-force Spec oracle inside Coq")
-LEVEL_TEXT = ("Machine-checked theorems (Properties/C04.v, 6 theorems, closed under the global context): for all worlds "
+LEVEL_TEXT = ("Machine-checked theorems (Properties/C04.v, 10 theorems, closed under the global context); the last four tie "
+              "them to the source TEXT: the Gallina regenerated from the current adapter.py (_lookup, _lookupAll, "
+              "_subscriptions, _uncached_*, add/remove/init_extendors) equals the nested-dictionary walkers, the model's "
+              "extendors surgery and, on registries reached by any history, Model.Adapter.uncached_lookup - so soundness, "
+              "completeness and leastness hold of the generated _uncached_lookup.  For all worlds "
               "with reflexive, duplicate-free, transitively closed resolution orders, all registry lists, keys and "
               "arities, the model's uncached lookup is sound, complete and returns the preferred (least) applicable "
               "registration; the extendors invariant it relies on is proved for every registration history and every "
